@@ -38,6 +38,7 @@ type Profile struct {
 	Pins               bool
 	Chans              []string
 	PBaseDeadline      int    // probability (out of 100) of a server whose request contexts have a 50ms deadline
+	PLongWait          int    // weight (out of 100 steps) of a step that lets 6 s or 61 s of fake time pass: nothing in the library may give up waiting on its own
 	OwnBase            bool   // half of the servers give every request a base context of its own (ServerOptions.NewContext) that outcome "endbase" ends
 	PrefixGates        [2]int // the script opens with this many (min, max; capped below the limit) single parking calls, one per record
 }
@@ -228,6 +229,14 @@ func ServerScenario(t *rapid.T, p Profile) sim.Scenario {
 			st.window = map[string]bool{}
 			sc.Steps = append(sc.Steps, sim.Step{Op: "advance", D: 200})
 			continue
+		case p.PLongWait > 0 && sc.Cfg.BaseDeadlineMs == 0 && roll >= 50 && roll < 50+p.PLongWait:
+			// (never inside a burst: everything in flight has settled before the wait)
+			if len(sc.Steps) > 0 {
+				sc.Steps[len(sc.Steps)-1].Burst = false
+			}
+			st.window = map[string]bool{}
+			sc.Steps = append(sc.Steps, sim.Step{Op: "advance", D: pick(t, "longwait", []int{6000, 6000, 61000})})
+			continue
 		case len(st.HCB) > 0 && roll >= 60 && roll < 60+p.PHandlerPush/2+4:
 			// the peer answers the callback of one of the handlers (again, perhaps)
 			j := rapid.IntRange(0, len(st.HCB)-1).Draw(t, "hcb")
@@ -289,7 +298,8 @@ func CancelRaceScenario(t *rapid.T) sim.Scenario {
 	sc.Cfg.Concurrency = limit
 	sc.Cfg.Salt = rapid.Uint64().Draw(t, "salt")
 	sc.Cfg.Chan = pick(t, "chan", []string{"direct", "pipe"})
-	sc.Cfg.Pins = []sim.Pin{{Site: "srv.invoke.acquire", Delay: pick(t, "hold", []int{200000, 200000, 100000})}}
+	// held either in front of the semaphore or just behind it (slot taken, handler not yet started)
+	sc.Cfg.Pins = []sim.Pin{{Site: pick(t, "holdsite", []string{"srv.invoke.acquire", "srv.invoke.acquire", "srv.invoke.run"}), Delay: pick(t, "hold", []int{200000, 200000, 100000})}}
 	if rapid.Bool().Draw(t, "slowcancel") {
 		sc.Cfg.Pins = append(sc.Cfg.Pins, sim.Pin{Site: "srv.cancel.lock", Delay: pick(t, "cdelay", []int{1, 50, 9000, 300000})})
 	}
@@ -337,6 +347,15 @@ func CancelRaceScenario(t *rapid.T) sim.Scenario {
 	}
 	for _, fk := range append(fillers, parked...) {
 		sc.Steps = append(sc.Steps, sim.Step{Op: "release", K: fk, Out: "ok"})
+	}
+	// afterwards every slot is still there: as many parking calls as the limit all start
+	var probes []int
+	for i := 0; i < limit; i++ {
+		pk, _ := call("gate", false)
+		probes = append(probes, pk)
+	}
+	for _, pk := range probes {
+		sc.Steps = append(sc.Steps, sim.Step{Op: "release", K: pk, Out: "ok"})
 	}
 	return sc
 }
